@@ -74,12 +74,12 @@ theorem prevote_grant_sound (v : Vol) (q : VoteReq) (t : Nat) (h : preVoteResp v
 theorem ae_stale_term_inert (cf : Cfg) (d : Durable) (v : Vol) (a : AEReq) (f c : Option Nat) (h : a.term < v.term) :
     (exec (aePlan cf d v a) f c).2 = [] ∧ (exec (aePlan cf d v a) f c).1.vol = v ∧
     (exec (aePlan cf d v a) f c).1.resp = .append v.term (lastIndex v) false false := by
-  have hp : aePlan cf d v a = ⟨[], mkRes (.append v.term (lastIndex v) false false) v⟩ := by
+  have hp : aePlan cf d v a = ⟨[], aeFail v v false v.term⟩ := by
     simp [aePlan, h]
   rw [hp]
   simp only [exec, Plan.writes, List.map_nil, List.length_nil, List.getElem?_nil]
   repeat' split
-  all_goals simp_all [mkRes]
+  all_goals simp_all [mkRes, aeFail]
 
 /-- an InstallSnapshot the server is already past (by what it has applied, or because it holds the
     snapshot's last entry) is acknowledged without any durable write and without touching the FSM -/
@@ -248,5 +248,143 @@ theorem vote_grant_sound (d : Durable) (v : Vol) (q : VoteReq) (f c : Option Nat
   · exfalso
     rw [hr] at h
     exact votePlan_steps_refuse d v q (w, r) (List.mem_of_getElem? hs) t h
+
+
+
+def isSuccess (r : Resp) : Bool := match r with | .append _ _ true _ => true | _ => false
+
+theorem aeFail_not_success (v0 v' : Vol) (nr : Bool) (t : Nat) : isSuccess (aeFail v0 v' nr t).resp = false := rfl
+
+/-- the steps of the commit/processLogs tail are the steps handed in -/
+theorem aeFinish_steps (v0 : Vol) (t1 : Nat) (a : AEReq) (steps : List (Write × Res)) (dlog : List Entry) (v3 : Vol) :
+    (aeFinish v0 t1 a steps dlog v3).steps = steps := by
+  unfold aeFinish
+  simp only []
+  repeat' split
+  all_goals rfl
+
+theorem aePre_refuse (v : Vol) (a : AEReq) : ∀ s ∈ aePre v a, isSuccess s.2.resp = false := by
+  intro s hs
+  unfold aePre at hs
+  split at hs
+  · simp at hs; subst hs; rfl
+  · simp at hs
+
+/-- every step of the entries part answers "no success" -/
+theorem aeBody_steps_refuse (cf : Cfg) (d : Durable) (v : Vol) (a : AEReq) (pre : List (Write × Res)) (v2 : Vol) (t1 : Nat)
+    (hpre : ∀ s ∈ pre, isSuccess s.2.resp = false) :
+    ∀ s ∈ (aeBody cf d v a pre v2 t1).steps, isSuccess s.2.resp = false := by
+  intro s hs
+  unfold aeBody at hs
+  split at hs
+  · rw [aeFinish_steps] at hs; exact hpre s hs
+  · split at hs
+    · exact hpre s hs
+    · rename_i conflict newEntries _
+      cases conflict with
+      | none =>
+        simp only [] at hs
+        split at hs
+        · rename_i hr; simp at hr
+        · split at hs
+          · rw [aeFinish_steps] at hs; exact hpre s hs
+          · rw [aeFinish_steps] at hs
+            simp only [List.mem_append, List.mem_cons, List.mem_nil_iff, or_false] at hs
+            rcases hs with (hs | hs) | hs
+            · exact hpre s hs
+            · split at hs
+              · simp at hs; subst hs; rfl
+              · simp at hs
+            · subst hs; rfl
+      | some ci =>
+        simp only [] at hs
+        split at hs
+        · simp only [List.mem_append, List.mem_cons, List.mem_nil_iff, or_false] at hs
+          rcases hs with hs | hs
+          · exact hpre s hs
+          · subst hs; rfl
+        · split at hs
+          · rw [aeFinish_steps] at hs
+            simp only [List.mem_append, List.mem_cons, List.mem_nil_iff, or_false] at hs
+            rcases hs with hs | hs
+            · exact hpre s hs
+            · subst hs; rfl
+          · rw [aeFinish_steps] at hs
+            simp only [List.mem_append, List.mem_cons, List.mem_nil_iff, or_false] at hs
+            rcases hs with ((hs | hs) | hs) | hs
+            · exact hpre s hs
+            · subst hs; rfl
+            · split at hs
+              · simp at hs; subst hs; rfl
+              · simp at hs
+            · subst hs; rfl
+
+theorem aePlan_steps_refuse (cf : Cfg) (d : Durable) (v : Vol) (a : AEReq) :
+    ∀ s ∈ (aePlan cf d v a).steps, isSuccess s.2.resp = false := by
+  intro s hs
+  unfold aePlan at hs
+  split at hs
+  · simp at hs
+  · simp only [] at hs
+    split at hs
+    · exact aePre_refuse v a s hs
+    · exact aePre_refuse v a s hs
+    · exact aeBody_steps_refuse cf d v a _ _ _ (aePre_refuse v a) s hs
+
+
+/-- **C04, one handler, every failure ordinal and crash ordinal.**  If AppendEntries answers
+    success then: the request's term is at least the server's; the previous-entry check passed (the
+    entry at `PrevLogEntry` is the cached last entry or the snapshot boundary with the announced
+    term, or lies inside the snapshot, or is in the store with that term, or `PrevLogEntry = 0`);
+    and every planned write was performed — the answer is given only after truncation and storing. -/
+theorem ae_success_sound (cf : Cfg) (d : Durable) (v : Vol) (a : AEReq) (f c : Option Nat)
+    (h : isSuccess (exec (aePlan cf d v a) f c).1.resp = true) :
+    (exec (aePlan cf d v a) f c).2 = (aePlan cf d v a).writes ∧ v.term ≤ a.term ∧
+    aePrevOk d (aeVol2 v a) a = some true := by
+  rcases exec_cases (aePlan cf d v a) f c with hfin | ⟨k, w, r, hs, hr, _, _⟩
+  · rw [hfin] at h ⊢
+    refine ⟨rfl, ?_⟩
+    simp only [] at h
+    unfold aePlan at h
+    split at h
+    · simp [aeFail, mkRes, isSuccess] at h
+    · rename_i hge
+      simp only [] at h
+      refine ⟨by omega, ?_⟩
+      split at h
+      · simp [aeFail, mkRes, isSuccess] at h
+      · simp [aeFail, mkRes, isSuccess] at h
+      · assumption
+  · exfalso
+    have := aePlan_steps_refuse cf d v a (w, r) (List.mem_of_getElem? hs)
+    rw [hr] at h
+    simp [this] at h
+
+/-- what an accepted previous-entry check means -/
+theorem aePrevOk_true (d : Durable) (v2 : Vol) (a : AEReq) (h : aePrevOk d v2 a = some true) :
+    a.prevIdx = 0 ∨
+    (a.prevIdx = (lastEntry v2).1 ∧ a.prevTerm = (lastEntry v2).2) ∨
+    (a.prevIdx = v2.snapIdx ∧ a.prevTerm = v2.snapTerm) ∨
+    a.prevIdx < v2.snapIdx ∨
+    ∃ e, getLog d.log a.prevIdx = some e ∧ a.prevTerm = e.term := by
+  unfold aePrevOk at h
+  split at h
+  · left; assumption
+  · simp only [] at h
+    split at h
+    · right; left
+      rename_i h1
+      exact ⟨h1, by simpa using h⟩
+    · split at h
+      · right; right; left
+        rename_i h1
+        exact ⟨h1, by simpa using h⟩
+      · split at h
+        · right; right; right; left; assumption
+        · split at h
+          · cases h
+          · rename_i pe hg
+            right; right; right; right
+            exact ⟨pe, hg, by simpa using h⟩
 
 end SV
